@@ -31,7 +31,7 @@ from pywbem import (CIMInstanceName, CIMClassName, CIMInstance, CIMClass,
 from pywbem._nocasedict import NocaseDict
 from pywbem._vendor.nocasedict import NocaseDict as _BaseNocaseDict
 
-from .runner import Sub
+from .runner import Sub, exc_signature
 from . import strategies as S
 
 PROPERTY = 'C05'
@@ -76,7 +76,36 @@ ASSUMPTIONS = [
     "keybinding values are documented as shared and are not touched.  "
     "copy.copy(): only attribute rebinding.  deepcopy/pickle: anything",
 ]
-SENSITIVITY = []   # filled below
+SENSITIVITY = [
+    "_utils._eq_name compares case-sensitively -> "
+    "eq_*/eq:case-variant-unequal:<kind> (all 10 kinds with names)",
+    "_utils._hash_name hashes without .lower() -> "
+    "eq_*/hash:equal-objects-differ:<kind>",
+    "CIMProperty.__eq__ forgets array_size -> "
+    "eq_elements/eq:mutant-equal:prop.array_size (+ eq_objects, nested)",
+    "CIMParameter.__eq__ forgets value -> "
+    "eq_elements/eq:mutant-equal:param.value",
+    "CIMInstanceName.__eq__ forgets host -> eq_paths/eq:mutant-equal:"
+    "ipath.host (+ hash:equal-objects-differ:ipath)",
+    "CIMDateTime.__eq__ ignores timedelta -> eq_misc/eq:mutant-equal:"
+    "datetime.instant",
+    "HashableMixin.__hash__ uses tuple instead of frozenset (order "
+    "sensitive) -> eq_*/hash:equal-objects-differ:<kind>",
+    "CIMInstance.copy() shares the properties dictionary -> "
+    "copies/indep:copy():inst:dict-properties",
+    "CIMInstance.path setter does not copy the path -> "
+    "copies/indep:copy():inst:path",
+    "cimvalue() returns the input list when nothing needs converting -> "
+    "copies/indep:copy():{prop,param,qual,qualdecl}:list",
+    "CIMQualifier.copy() forgets translatable -> "
+    "copies/copy:copy():not-equal:qual",
+    "SlottedPickleMixin.__getstate__ skips _propagated -> "
+    "copies/eq:raises:<kind>:AttributeError@_cim_obj:propagated",
+    "control: _CIMComparisonMixin.__ne__ = not other.__eq__(self) "
+    "(semantically equivalent) -> no new signature",
+    "control: CIMParameter.__hash__ drops array_size (still lawful: equal "
+    "objects keep equal hashes) -> no new signature, as it must be",
+]
 
 EQ, NE, ANY = 'EQ', 'NE', '?'
 
@@ -1168,20 +1197,25 @@ def _cmp(ctx, x, y, kind, neg=False):
                      '%s raised %r\n  x = %r\n  y = %r' %
                      ('!=' if neg else '==', exc, x, y))
         else:
-            ctx.fail_exc(exc, 'eq:raises:' + kind)
+            _fail_exc(ctx, exc, 'eq:raises:' + kind,
+                      '%r\n  x = %r\n  y = %r' % (exc, x, y))
         return None
+
+
+def _fail_exc(ctx, exc, what, detail):
+    "ctx.fail_exc, also for exceptions without a pywbem frame"
+    if exc_signature(exc) is not None:
+        ctx.fail_exc(exc, what)
+    else:
+        # e.g. "unhashable type" raised by the interpreter
+        ctx.fail('%s:%s' % (what, type(exc).__name__), detail)
 
 
 def _hash(ctx, x, kind):
     try:
         return hash(x)
     except Exception as exc:  # pylint: disable=broad-except
-        try:
-            ctx.fail_exc(exc, 'hash:raises:' + kind)
-        except Exception:  # pylint: disable=broad-except
-            # no pywbem frame (e.g. "unhashable type")
-            ctx.fail('hash:raises:%s:%s' % (kind, type(exc).__name__),
-                     '%r for %r' % (exc, x))
+        _fail_exc(ctx, exc, 'hash:raises:' + kind, '%r for %r' % (exc, x))
         return None
 
 
@@ -1590,12 +1624,8 @@ def _one_copy(ctx, kind, r, method, steps):
         try:
             y = do_copy(x, method)
         except Exception as exc:  # pylint: disable=broad-except
-            try:
-                ctx.fail_exc(exc, 'copy:%s:raises:%s' % (method, kind))
-            except Exception:  # pylint: disable=broad-except
-                ctx.fail('copy:%s:raises:%s:%s' % (method, kind,
-                                                   type(exc).__name__),
-                         '%r for %r' % (exc, x))
+            _fail_exc(ctx, exc, 'copy:%s:raises:%s' % (method, kind),
+                      '%r for %r' % (exc, x))
             ctx.case(key=key, nontrivial=False, classes=classes)
             return
     tag = method if has_copy else 'constructor'
@@ -1664,11 +1694,11 @@ SUBCHECKS = [
     Sub('eq_elements',
         strategy=laws_strategy(['prop', 'prop', 'param', 'meth', 'qual',
                                 'qualdecl']),
-        oracle=laws_oracle, quick=(12, 1000), thorough=(16, 30000)),
+        oracle=laws_oracle, quick=(12, 800), thorough=(16, 30000)),
     Sub('eq_objects', strategy=laws_strategy(['inst', 'class']),
-        oracle=laws_oracle, quick=(12, 500), thorough=(16, 15000)),
+        oracle=laws_oracle, quick=(16, 300), thorough=(16, 15000)),
     Sub('eq_misc', strategy=laws_strategy(['datetime', 'ncd']),
         oracle=laws_oracle, quick=(4, 1200), thorough=(8, 30000)),
     Sub('copies', strategy=copies_strategy, oracle=copies_oracle,
-        quick=(12, 1200), thorough=(16, 40000)),
+        quick=(12, 1000), thorough=(16, 40000)),
 ]
